@@ -101,6 +101,12 @@ func CheckCalls(fc *FedCase) []Failure {
 }
 
 func (c02) Run(c *Ctx, i int) CaseResult {
+	if i%5 == 2 {
+		// executable directives of the services' own, with variables inside list and object arguments
+		if df := DirectiveVariables(c.Rand(i + 68000000)); len(df) > 0 {
+			return CaseResult{ID: fmt.Sprintf("gen:%d", i), Nontrivial: true, Fails: df}
+		}
+	}
 	var in FedInput
 	feats := map[string]bool{}
 	id := ""
